@@ -726,6 +726,16 @@ func runCase(c ccase) (out cres) {
 	}
 	out.RunHung = runHung
 	out.Path = classify(runErr, out.Fired, c.Rule)
+	if c.Scenario == "procs" && runErr == nil {
+		switch {
+		case c.Excl:
+			out.Path = "ok/exclusive-pragma"
+		case c.K > mp:
+			out.Path = "ok/procs-pragma-above-capacity"
+		default:
+			out.Path = "ok/procs-pragma-within-capacity"
+		}
+	}
 	if runHung {
 		out.Path = "run-hung"
 	}
